@@ -74,7 +74,7 @@ type Str struct {
 func encStr(codec string, payload Value) Str { return Str{Kind: 3, Codec: codec, Payload: payload} }
 
 // codecs whose output is never the empty string
-var nonEmptyCodec = map[string]bool{"u64dec": true, "addrhex": true, "hashhex": true, "hexutil": true}
+var nonEmptyCodec = map[string]bool{"u64dec": true, "i64dec": true, "addrhex": true, "hashhex": true, "hexutil": true}
 
 // If is an interface value; T == nil is the nil interface.
 type If struct {
